@@ -109,13 +109,13 @@ func clientGoroutines() map[string]int {
 func RunClose(e *Env) {
 	R := e.R
 	R.Rule = "grid (seeded sample in quick): send buffer {0,1,4,64} x node states (connected, never connected = refused, server killed = reconnecting) x in-flight calls of every kind (handlers that never answer) x strike point of Close placed with hooks " +
-		"(idle, enq.registered = queued, snd.dequeued, snd.beforeWrite = being written, awaiting reply, rec.backoff = receiver asleep in back-off) x {one Close, 2-8 concurrent Closes, Close twice}; servers run in a child process so that every goroutine with a grpc/gorums frame in the client process belongs to the manager; " +
+		"(idle, enq.registered = queued, snd.dequeued, snd.beforeWrite = being written, awaiting reply, rec.backoff = receiver asleep in back-off, rcv.beforeRoute / rcv.afterRoute = receiver has another call's reply in hand) x {one Close, 2-8 concurrent Closes, Close twice}; servers run in a child process so that every goroutine with a grpc/gorums frame in the client process belongs to the manager; " +
 		"oracle after Close returned: every in-flight call returns (hang rule); calls of every kind issued afterwards with context.Background() and with a deadline return or complete, without panic; no client goroutine with a grpc/gorums frame survives (polled up to W, baseline taken before the manager was created); " +
 		"the server child reports no live stream; no panic from repeated or concurrent Close; distinct = grid point"
 	R.Assume("tarpit node state (accept, never speak HTTP/2) is left to the thorough tier: creating a configuration against it takes gRPC's 20 s minimum connect timeout")
 	rng := e.Rand(12)
 	var cases []CCase
-	strikes := []string{"idle", "enq.registered", "snd.dequeued", "snd.beforeWrite", "awaiting-reply", "rec.backoff"}
+	strikes := []string{"idle", "enq.registered", "snd.dequeued", "snd.beforeWrite", "awaiting-reply", "rec.backoff", "rcv.beforeRoute", "rcv.afterRoute"}
 	kinds := []string{"RPC", "QC", "Async", "Corr", "CorrStream", "Uni", "Multi", "Uni-nowait", "Multi-nowait"}
 	for i := 0; i < e.Pick(120, 9000); i++ {
 		c := CCase{Buffer: []uint{0, 1, 4, 64}[rng.Intn(4)], N: 1 + rng.Intn(3), Strike: strikes[rng.Intn(len(strikes))], Closers: []int{1, 1, 2, 8}[rng.Intn(4)], Twice: rng.Intn(3) == 0}
@@ -273,7 +273,7 @@ func runCloseCase(e *Env, idx int, c CCase) {
 		})
 	}
 	var hold *h.Held
-	if e.Hooks != nil && (c.Strike == "enq.registered" || c.Strike == "snd.dequeued" || c.Strike == "snd.beforeWrite") {
+	if e.Hooks != nil && (c.Strike == "enq.registered" || c.Strike == "snd.dequeued" || c.Strike == "snd.beforeWrite" || strings.HasPrefix(c.Strike, "rcv.")) {
 		hold = e.Hooks.Hold(c.Strike, ids[0], 0, e.W+4*time.Second)
 	}
 	// for nodes that were down at creation: hold the sender when it dequeues its *second* request, i.e. after the dial for the first
@@ -291,6 +291,15 @@ func runCloseCase(e *Env, idx int, c CCase) {
 		inflight = append(inflight, issue(k, context.Background(), 77))
 	}
 	calls := append([]string(nil), c.Calls...)
+	if strings.HasPrefix(c.Strike, "rcv.") {
+		// Close strikes while the receiver of node 0 has a reply in hand (before / after handing it over): one call that is
+		// never answered is awaiting its reply on that node, a second one is answered
+		inflight = append(inflight, issue("RPC", context.Background(), 77))
+		calls = append(calls, "RPC")
+		time.Sleep(5 * time.Millisecond)
+		inflight = append(inflight, issue("RPC", context.Background(), 12))
+		calls = append(calls, "RPC")
+	}
 	if c.Buffer > 0 {
 		// fill the send buffers of every node (single-node calls), so that requests are queued when Close strikes
 		for j := 0; j < c.N; j++ {
